@@ -159,9 +159,6 @@ Proof. exact (fun ds q => dedup_NoDup (tracking_pairs ds q)). Qed.
 Print Assumptions C02_tracking_ids_no_duplicates.
 
 (* ---- non-vacuity: concrete non-trivial instances meet the hypotheses ----------- *)
-Definition ex_bin : stored :=
-  mkStored BINARY [1; 2; 3] 1 1 4 0
-    [mkFrame 1 1 [1;0;0;0]; mkFrame 2 1 [0;1;0;0]; mkFrame 1 2 [0;1;1;0]; mkFrame 2 3 [0;1;0;1]] [1; 2; 3].
 Example C02_example_binary :
   wf_binary ex_bin /\ wf_opts (mkOpts true true false true None) /\
   seg_frame ex_bin [2; 1; 3] [2; 1] (mkOpts true true false true None) = Ok (DU 8, OComb [[0;2;0;0]; [2;1;1;0]; [0;0;0;0]]) /\
@@ -169,19 +166,9 @@ Example C02_example_binary :
   seg_frame ex_bin [2] [3; 1] (mkOpts true false true true None) = Ok (DU 8, OComb [[0;3;0;3]]) /\
   seg_frame ex_bin [1; 2] [3; 1] (mkOpts false false false true (Some DBool)) =
     Ok (DBool, OStack [[[0;0;0;0]; [1;0;0;0]]; [[0;1;0;1]; [0;1;0;0]]]).
-Proof.
-  split; [|split; [|repeat split; reflexivity]].
-  - split; [reflexivity|]. split.
-    + intros f Hf. cbn in Hf.
-      repeat (destruct Hf as [<-|Hf]; [split; [reflexivity|cbn; intros v Hv; intuition lia]|]). contradiction.
-    + cbn. intros s Hs. intuition lia.
-  - intros d Hd. discriminate.
-Qed.
+Proof. exact example_binary. Qed.
 Print Assumptions C02_example_binary.
 
-Definition ex_lm : stored :=
-  mkStored LABELMAP [1; 7; 300; 65535] 16 1 4 0
-    [mkFrame 1 0 [0;7;300;65535]; mkFrame 3 0 [1;1;0;65535]] [1; 2; 3].
 Example C02_example_labelmap :
   wf_labelmap ex_lm /\
   seg_frame ex_lm [3; 2; 1] [65535; 7] (mkOpts true false false true None) =
@@ -189,13 +176,7 @@ Example C02_example_labelmap :
   seg_frame ex_lm [1] [65535; 7] (mkOpts true true false true None) = Ok (DU 8, OComb [[0;2;0;1]]) /\
   seg_frame ex_lm [1] [300; 65535] (mkOpts false false false true None) = Ok (DU 8, OStack [[[0;0;1;0]; [0;0;0;1]]]) /\
   seg_frame ex_lm [1] [300; 65535] (mkOpts true false false true (Some (DU 8))) = Err "ValueError".
-Proof.
-  split; [|repeat split; vm_compute; reflexivity].
-  split; [reflexivity|]. split; [cbn; lia|]. split.
-  - cbn. intros s Hs. change (2 ^ 16) with 65536. intuition lia.
-  - intros f v Hf Hv. cbn in Hf.
-    repeat (destruct Hf as [<-|Hf]; [cbn in Hv |- *; intuition lia|]). contradiction.
-Qed.
+Proof. exact example_labelmap. Qed.
 Print Assumptions C02_example_labelmap.
 
 (* ====================================================================== *)
